@@ -242,9 +242,13 @@ pub struct Acc {
     /// per direction: sum and sum of squares of (<s,u>^2 - <s_ref,u>^2)
     pub dsq_sum: Vec<f64>,
     pub dsq_sq: Vec<f64>,
+    // dependence between signatures: normalised inner products <s, s'>/(2n sigma^2) of the k-th signatures
+    // of two threads of one run (count, sum, sum of squares) and of consecutive signatures of one thread
+    pub cx: [f64; 3],
+    pub l1: [f64; 3],
 }
 
-const ACC_HEAD: usize = 10;
+const ACC_HEAD: usize = 16;
 
 impl Acc {
     fn new(dirs: usize) -> Acc {
@@ -263,6 +267,8 @@ impl Acc {
             dn_sq: 0.0,
             dsq_sum: vec![0.0; dirs],
             dsq_sq: vec![0.0; dirs],
+            cx: [0.0; 3],
+            l1: [0.0; 3],
         }
     }
     fn to_blob(&self) -> Vec<u8> {
@@ -277,6 +283,9 @@ impl Acc {
         b.extend_from_slice(&self.dn_sum.to_le_bytes());
         b.extend_from_slice(&self.dn_sq.to_le_bytes());
         b.extend_from_slice(&0u64.to_le_bytes());
+        for v in self.cx.iter().chain(self.l1.iter()) {
+            b.extend_from_slice(&v.to_le_bytes());
+        }
         for v in self.sum.iter().chain(self.sq.iter()).chain(self.cross.iter()).chain(self.dsq_sum.iter()).chain(self.dsq_sq.iter()) {
             b.extend_from_slice(&v.to_le_bytes());
         }
@@ -294,6 +303,10 @@ impl Acc {
         self.ref_norm_sum += f(6);
         self.dn_sum += f(7);
         self.dn_sq += f(8);
+        for i in 0..3 {
+            self.cx[i] += f(10 + i);
+            self.l1[i] += f(13 + i);
+        }
         let d = self.sum.len();
         let c = self.cross.len();
         for i in 0..d {
@@ -406,6 +419,8 @@ fn run_chunk<V: Variant, W: Variant>(seed: u64, run: u64, key_index: usize, chun
     let ntt = Ntt::new(n);
     let mut acc = Acc::new(4 * n);
     let bound = V::BOUND;
+    // the signature vectors in thread and operation order, for the dependence statistics
+    let mut history: Vec<Vec<Option<Vec<i32>>>> = res.iter().map(|_| Vec::new()).collect();
     for (t, tr) in res.iter().enumerate() {
         let ops = match tr {
             Ok(o) => o,
@@ -418,8 +433,10 @@ fn run_chunk<V: Variant, W: Variant>(seed: u64, run: u64, key_index: usize, chun
                 match recover(n, &ntt, &basis.h, msg, bytes) {
                     None => {
                         st.inc("skipped.undecodable_signature");
+                        history[t].push(None);
                     }
                     Some((s1, s2)) => {
+                        history[t].push(Some(s1.iter().chain(s2.iter()).map(|&x| x as i32).collect()));
                         let norm: i64 = s1.iter().chain(s2.iter()).map(|x| x * x).sum();
                         acc.m += 1;
                         acc.norm_sum += norm as f64;
@@ -476,6 +493,33 @@ fn run_chunk<V: Variant, W: Variant>(seed: u64, run: u64, key_index: usize, chun
                 }
             } else if let OpResult::Unwound(_) = r {
                 st.inc("skipped.sign_unwound");
+                history[t].push(None);
+            }
+        }
+    }
+    {
+        let scale = 2.0 * n as f64 * V::SIGMA * V::SIGMA;
+        let ip = |a: &Vec<i32>, b: &Vec<i32>| a.iter().zip(b.iter()).map(|(x, y)| (*x as i64 * *y as i64) as f64).sum::<f64>() / scale;
+        for t in 0..history.len() {
+            for k in 0..history[t].len() {
+                if let Some(a) = &history[t][k] {
+                    if k + 1 < history[t].len() {
+                        if let Some(b) = &history[t][k + 1] {
+                            let v = ip(a, b);
+                            acc.l1[0] += 1.0;
+                            acc.l1[1] += v;
+                            acc.l1[2] += v * v;
+                        }
+                    }
+                    if t + 1 < history.len() {
+                        if let Some(Some(b)) = history[t + 1].get(k) {
+                            let v = ip(a, b);
+                            acc.cx[0] += 1.0;
+                            acc.cx[1] += v;
+                            acc.cx[2] += v * v;
+                        }
+                    }
+                }
             }
         }
     }
@@ -749,6 +793,27 @@ fn evaluate(rep: &mut Report) {
         }
         if a.over_bound > 0 {
             // already reported by the run itself
+        }
+        // dependence between signatures (independent spherical Gaussians: mean 0, variance 1/2n)
+        let dep_z = |c: &[f64; 3]| -> f64 {
+            if c[0] < 200.0 {
+                return 0.0;
+            }
+            let mean = c[1] / c[0];
+            let var = (c[2] / c[0] - mean * mean).max(0.25 / (2.0 * n as f64));
+            mean / (var / c[0]).sqrt()
+        };
+        let (z_cross, z_lag1) = (dep_z(&a.cx), dep_z(&a.l1));
+        if let Some(Value::Object(o)) = table.last_mut() {
+            o.insert("dependence".into(), json!({"cross_thread_pairs": a.cx[0], "cross_thread_z": (z_cross * 100.0).round() / 100.0, "consecutive_pairs": a.l1[0], "consecutive_z": (z_lag1 * 100.0).round() / 100.0}));
+        }
+        if z_cross.abs() > 6.5 || z_lag1.abs() > 6.5 {
+            alarm(
+                "signatures are not independent of each other",
+                format!("normalised inner product <s,s'>/(2n sigma^2): k-th signatures of two threads of one process {:.1} standard errors over {} pairs; consecutive signatures of one thread {:.1} over {} pairs", z_cross, a.cx[0], z_lag1, a.l1[0]),
+                rep,
+            );
+            continue;
         }
         if let Some(b) = (0..4).find(|&b| ref_quart_z[b].abs() > 6.5) {
             alarm(
